@@ -85,11 +85,16 @@ impl TraitCodegen<'_> {
         let params = trait_generics.trait_params();
         let where_clause = trait_generics.trait_where_clause();
 
+        // An entraited trait keeps all of its attributes,
+        // a generated trait only gets the ones entrait knows how to re-apply.
+        let is_entraited_trait = matches!(fn_input_mode, FnInputMode::RawTrait(_))
+            && matches!(self.trait_indirection, TraitIndirection::Trait);
         let trait_sub_attributes = self.sub_attributes.iter().filter(|attr| {
-            matches!(
-                attr,
-                SubAttribute::AsyncTrait(_) | SubAttribute::Automock(_)
-            )
+            is_entraited_trait
+                || matches!(
+                    attr,
+                    SubAttribute::AsyncTrait(_) | SubAttribute::Automock(_)
+                )
         });
 
         Ok(quote_spanned! { span=>
